@@ -323,6 +323,23 @@ func parsePCR(i *astikit.BytesIterator) (cr *ClockReference, err error) {
 }
 
 func writePacket(w *astikit.BitsWriter, p *Packet, targetPacketSize int) (written int, retErr error) {
+	// Make sure the payload fits before writing anything
+	available := targetPacketSize - 1 - mpegTsPacketHeaderSize
+	if p.Header.HasAdaptationField {
+		if p.AdaptationField.IsOneByteStuffing {
+			available--
+		} else {
+			available -= 1 + int(calcPacketAdaptationFieldLength(p.AdaptationField))
+		}
+	}
+	if available < len(p.Payload) {
+		return 0, fmt.Errorf(
+			"writePacket: can't write %d bytes of payload: only %d is available",
+			len(p.Payload),
+			available,
+		)
+	}
+
 	if retErr = w.Write(uint8(syncByte)); retErr != nil {
 		return
 	}
